@@ -55,6 +55,7 @@ def cases(tier):
         for layout in range(7):
             for via in ("api", "cli"):
                 yield ("fault", model, layout, via)
+    yield ("syntaxlines",)
 
 
 def _run_render(case):
@@ -565,8 +566,62 @@ def _run_fault(case):
             "states": evals, "transitions": evals}
 
 
+def _run_syntaxlines(case):
+    """texts with ONE syntax fault whose line is known by construction (a quoted string with an invalid escape, on one line or spread over three
+    with the escape on its first / last line; a stray token before or after a multi-line string; a list mixing values and key:value pairs), after
+    0-2 blank lines and as the first or second command: a syntax error need not carry a line, but a line it carries (attribute or "(line N)" in
+    its text) is the line of the command, of the argument / string, or of the fault itself"""
+    import re
+    from mpilot.program import Program
+
+    viols, outcomes = [], {}
+    evals = judged = 0
+    sample = None
+    bad = ["\\x4", "C:\\Users\\me", "\\u12", "\\N{nope"]
+    for lead in (0, 1, 2):
+        for second in (False, True):
+            pre = ["\n" * lead] + (["A = Cmd(\n    P = 1\n)\n"] if second else [])
+            base = lead + (3 if second else 0)  # lines before the faulty command
+            variants = []
+            for esc in bad:
+                variants.append(("escape:one-line", 'B = Cmd(\n    P = "x %s y",\n    Q = 2\n)\n' % esc, {base + 1, base + 2}))
+                variants.append(("escape:first-line-of-three", 'B = Cmd(\n    P = "x %s y\n  second line\n  third line",\n    Q = 2\n)\n' % esc, {base + 1, base + 2}))
+                variants.append(("escape:last-line-of-three", 'B = Cmd(\n    P = "first line\n  second line\n  x %s y",\n    Q = 2\n)\n' % esc, {base + 1, base + 2, base + 4}))
+                variants.append(("escape:after-a-multi-line-string", 'B = Cmd(\n    P = "first line\n  second line",\n    Q = "x %s y"\n)\n' % esc, {base + 1, base + 4}))
+            variants.append(("token:after-a-multi-line-string", 'B = Cmd(\n    P = "first line\n  second line",\n    = 2\n)\n', {base + 1, base + 4}))
+            variants.append(("token:before-a-multi-line-string", 'B = Cmd(\n    = 2,\n    P = "first line\n  second line"\n)\n', {base + 1, base + 2}))
+            variants.append(("character:after-a-multi-line-string", 'B = Cmd(\n    P = "first line\n  second line",\n    Q = 2 \u00a7\n)\n', {base + 1, base + 4}))
+            variants.append(("mixed-list", 'B = Cmd(\n    P = "first line\n  second line",\n    Q = [a, b: c]\n)\n', {base + 1, base + 4}))
+            for label, body, allowed in variants:
+                text = "".join(pre) + body
+                evals += 1
+                tag = {"text": text, "fault": label, "lines_allowed": sorted(allowed)}
+                sample = tag
+                try:
+                    Program.from_source(text, libraries=("mc.vlib.echo",))
+                    outcomes["syntax:%s:accepted" % label] = outcomes.get("syntax:%s:accepted" % label, 0) + 1
+                    continue  # (whether the text is rejected at all is C10 / C13)
+                except SyntaxError as exc:
+                    got = exc.lineno
+                    msg = str(exc)[:120]
+                    if got is None:
+                        m = re.search(r"\bline\s+(\d+)", str(exc))
+                        got = int(m.group(1)) if m else None
+                except Exception as exc:
+                    outcomes["syntax:%s:other:%s" % (label, type(exc).__name__)] = 1
+                    continue
+                judged += 1
+                if got is not None and got not in allowed:
+                    viols.append(V("C11:syntax-error:wrong-line:%s" % label, "the syntax error for a fault on line(s) %r carries line %r: %s" % (sorted(allowed), got, msg), **tag))
+                k = "syntax:%s:%s" % (label, "no-line" if got is None else "right-line" if got in allowed else "wrong-line")
+                outcomes[k] = outcomes.get(k, 0) + 1
+    return {"evals": evals, "nontrivial": evals, "judged": judged, "viols": viols[:20], "outcomes": outcomes, "sample": sample, "states": 0, "transitions": 0}
+
+
 def run(case):
     case = tuple(case)
+    if case[0] == "syntaxlines":
+        return _run_syntaxlines(case)
     if case[0] == "render":
         return _run_render(case)
     if case[0] == "hist":
